@@ -1,6 +1,7 @@
 import BertE.Lemmas.C02
 import BertE.Lemmas.C02Content
 import BertE.Lemmas.C02RecDemo
+import BertE.Lemmas.CloseRecCase
 import BertE.Props.C01
 import BertE.Gen.PushFlags
 import BertE.Drv.C02
@@ -810,5 +811,352 @@ example :
     (observableAt s p (fun _ _ => false) 4 = (s.after p).remote) :=
   ⟨RecDemo.q2_WF, RecDemo.q2_QTip, RecDemo.q2_QEmpty, by decide, by decide, by decide, by decide, by decide, by decide,
    by decide, by decide, by decide, by decide, by decide, by decide⟩
+
+end BertE.C02
+
+/-! ## Work package Close: WHICH path the fresh Bert-E takes after a crash inside `add_to_queue`
+
+`C02_recovery_enqueue_queued` / `_partial` / `_first_partial` above ASSUME the path of the evaluation delivered again
+(found queued / QueueOutOfOrder and reset / re-enqueue). Here the path is COMPUTED by the model of `validate()`
+(`QV.planPrV`) on the interrupted state `crashState s p rej k`, for every crash point `k` and every single refusal:
+`alreadyQueued` of the crash state is a closed formula in `k` and `rej` (`close_rec_alreadyQueued`), and the three
+cases are told apart by `alreadyQueued`, `validated` (crash state) and `close_rec_outOfOrder` (the `validate()` of the
+clone of the evaluation delivered again, after its update of the integration branches - what the code runs before
+`add_to_queue`). Lemmas: `Lemmas/CloseRecGeom.lean`, `CloseRecPlan.lean`, `CloseRecCase.lean`.
+
+Full statement that is NOT proved (what would turn the Boolean `validated (crash state)` into a function of `k` and
+`rej` as well): "a final push of which some but not all refs landed never validates" - i.e. under `close_rec_Single`,
+`alreadyQueued s' pr = true ∧ validated s' = true` implies that no `q/w/` ref of the pull request was refused. The
+model of `validate()` gives this on every concrete state tried (the `example` after
+`C02_validated_double_refusal_counterexample`, the examples below); a general proof needs an exact description of
+`QV.build` on a remote with one more / one fewer ref, which `HOK` / `Validated` (soundness only) do not provide. The
+case is therefore kept inside (a) with the conclusion that holds for it (the queue evaluation is guarded: nothing, or
+one atomic push that keeps inclusion), and the connection to `C02_recovery_enqueue_queued` is stated under the
+decidable condition `∀ d, rej (last) (q/w/<pr>/d/<src>) = false`. -/
+namespace BertE.C02
+open BertE.Git BertE.Flow BertE.C01 BertE.QV
+
+/-- the three cases are decided by three Booleans of the crash state: exactly one holds -/
+theorem C02_recovery_enqueue_cases (s' : Sys) (pr : PrInfo) (orc' : List Bool) :
+    let A := alreadyQueued s' pr = true ∧ validated s' = true
+    let B := (alreadyQueued s' pr = true ∧ validated s' = false) ∨
+             (alreadyQueued s' pr = false ∧ close_rec_outOfOrder s' pr orc' = true)
+    let C := alreadyQueued s' pr = false ∧ close_rec_outOfOrder s' pr orc' = false
+    (A ∨ B ∨ C) ∧ ¬ (A ∧ B) ∧ ¬ (A ∧ C) ∧ ¬ (B ∧ C) := by
+  intro A B C
+  simp only [A, B, C]
+  cases alreadyQueued s' pr <;> cases validated s' <;> cases close_rec_outOfOrder s' pr orc' <;> simp
+
+/-- the server refuses `q/w/1/5.1/feature/x` in the final push of `add_to_queue` on `qvS` (operation 3) -/
+def close_rec_rejQW : Nat → Ref → Bool := fun i r => i == 3 && r == .qw 1 (.dev 5 (some 1)) "feature/x"
+/-- a pull request with ONE target (development/5.1) on `qvS`; `add_to_queue` has two operations (creation of q/5.1,
+    the final push of q/5.1 and q/w/2/5.1/feature/x) -/
+def close_rec_pr1 : PrInfo := ⟨2, "feature/x", .dev 5 (some 1), false⟩
+def close_rec_rejQW1 : Nat → Ref → Bool := fun i r => i == 1 && r == .qw 2 (.dev 5 (some 1)) "feature/x"
+
+theorem close_rec_qvS_WF : qvS.WF := rec_wf_check (by decide) (by decide) (by decide) (by decide)
+
+/-- each of the three cases occurs (non-vacuity of `C02_recovery_enqueue_cases`): on `qvS`, `add_to_queue` of pull
+    request 1 has four operations (push of w/5.1/feature/x, creation of q/4.3, creation of q/5.1, the final push).
+    All four executed, nothing refused: (a). All four, `q/w/1/5.1/…` refused: (b), found queued. Died after TWO
+    operations (q/4.3 created, q/5.1 not), nothing refused: (b), not found queued. Died after three: (c). -/
+example :
+    let p := planPr qvS qvPr .final [] []
+    let a := crashState qvS p (fun _ _ => false) 4
+    let b1 := crashState qvS p close_rec_rejQW 4
+    let b2 := crashState qvS p (fun _ _ => false) 2
+    let c := crashState qvS p (fun _ _ => false) 3
+    (alreadyQueued a qvPr = true ∧ validated a = true) ∧
+    (alreadyQueued b1 qvPr = true ∧ validated b1 = false) ∧
+    (alreadyQueued b2 qvPr = false ∧ close_rec_outOfOrder b2 qvPr [] = true) ∧
+    (alreadyQueued c qvPr = false ∧ close_rec_outOfOrder c qvPr [] = false) := by decide
+
+/-- **C02, recovery of `add_to_queue`: the path of the evaluation delivered again, decided.** A queue-mode
+    evaluation that answers Queued (`hU`; the pull request not queued before, `hnaq`) is interrupted after ANY number
+    `k` of its operations, the server refusing at most one ref in one operation (`close_rec_Single`). `s'` is what is
+    left, `pV` the evaluation of the same pull request by a fresh Bert-E on it (through the gates: stage `.final`;
+    any content-merge answers `orc'`, any queue selection `sel'`). Then:
+    * `s'` is well formed, keeps inclusion and the cascade, no destination has moved;
+    * `already_in_queue` of `s'` is COMPUTED: the final push was executed and at least one `q/w/` ref accepted;
+    * when the job died before its final push, `s'` is itself `rec_Rebuilt`: the pull request is not queued, the queue
+      branches have the content they had (a freshly created one sits on the tip of its destination branch);
+    * exactly one (`C02_recovery_enqueue_cases`) of
+      (a) found queued, `validate()` passes: `pV` IS the guarded queue evaluation - nothing, or ONE atomic push that
+          keeps inclusion and lands the selected queue commits; when no `q/w/` ref of the pull request was refused,
+          the queue is the uninterrupted one (`C02_recovery_enqueue_queued`'s conclusion for every selection);
+      (b) `validate()` fails - found queued: `pV` does nothing (IncoherentQueues); not found queued: `pV` answers
+          QueueOutOfOrder having pushed only integration branches. Either way, interrupted anywhere with any
+          refusals, `pV` moves no destination and changes no ref other than `w/<version>/<src>` of this pull request:
+          the repository waits for the queue reset (`C02_recovery_enqueue_partial`, `_first_partial`);
+      (c) not found queued, the guard passes (or is not reached): `pV` IS the unguarded `planPr` on `s'` - the pull
+          request is evaluated afresh. This happens when the job died before its final push - then `s'` is itself
+          `rec_Rebuilt` (queue as before, new queue branches on their destination tips) and, when `pV` answers
+          Queued (`hR`, in the conclusion), the merge of the queue ends with the same content on every target as the
+          uninterrupted run - or, final push executed, when the pull request has ONE target whose `q/w/` ref was the
+          refused ref. -/
+theorem C02_recovery_enqueue (s : Sys) (hs : s.WF) (hincl : s.Incl) (hc : CascadeOK s)
+    (hqt : rec_QTip s.g s.remote) (huq : s.useQueue = true)
+    (pr : PrInfo) (hnaq : alreadyQueued s pr = false) (orc : List Bool) (sel : List Nat) (sc : Commit)
+    (hsc : s.remote.get (.other pr.src) = some sc) (hU : (planPr s pr .final orc sel).outcome = "Queued")
+    (rej : Nat → Ref → Bool) (hsingle : close_rec_Single rej) (k : Nat)
+    (orc' : List Bool) (sel' : List Nat) (wgone : List (Dest × String)) :
+    let p := planPr s pr .final orc sel
+    let s' := crashState s p rej k
+    let pV := planPrV s' pr .final orc' sel' wgone
+    (s'.WF ∧ s'.Incl ∧ CascadeOK s' ∧ Unmoved s s'.remote) ∧
+    alreadyQueued s' pr = (decide (p.ops.length ≤ k) &&
+      (s.targets pr.dst).any (fun d => !rej (p.ops.length - 1) (.qw pr.id d pr.src))) ∧
+    (k < p.ops.length → rec_Rebuilt s pr s' s') ∧
+    ((alreadyQueued s' pr = true ∧ validated s' = true ∧ p.ops.length ≤ k ∧
+        pV = evalQueues s' sel' wgone ∧
+        (pV.ops = [] ∨ ∃ loc, pV.ops = [.pushAll loc true] ∧ EvalFinal s' sel' loc) ∧
+        ((∀ d ∈ s.targets pr.dst, rej (p.ops.length - 1) (.qw pr.id d pr.src) = false) → ∀ selQ : List Nat,
+          ((planQueues (s.after p) selQ).ops = [] ∧ (planQueues { s' with queue := p.queue } selQ).ops = []) ∨
+          ∃ loc loc', (planQueues (s.after p) selQ).ops = [Op.pushAll loc true] ∧
+            (planQueues { s' with queue := p.queue } selQ).ops = [Op.pushAll loc' true] ∧
+            ∀ d, loc.get (.dest d) = loc'.get (.dest d))) ∨
+     (((alreadyQueued s' pr = true ∧ validated s' = false ∧ pV.ops = []) ∨
+       (alreadyQueued s' pr = false ∧ close_rec_outOfOrder s' pr orc' = true ∧
+         pV.outcome = "QueueOutOfOrder" ∧ ∀ op ∈ pV.ops, op.Quiet)) ∧
+      ∀ (rej' : Nat → Ref → Bool) (k' : Nat), Unmoved s (observableAt s' pV rej' k') ∧
+        ∀ x, (∀ d, x ≠ .w d pr.src) → (observableAt s' pV rej' k').get x = s'.remote.get x) ∨
+     (alreadyQueued s' pr = false ∧ close_rec_outOfOrder s' pr orc' = false ∧
+       pV = planPr s' pr .final orc' [] ∧
+       (k < p.ops.length ∨
+         (s.targets pr.dst = [pr.dst] ∧ rej (p.ops.length - 1) (.qw pr.id pr.dst pr.src) = true)) ∧
+       (k < p.ops.length →
+         ((planPr s' pr .final orc' []).outcome = "Queued" → ∀ selU selR : List Nat,
+           selU.contains pr.id = true → selR.contains pr.id = true →
+           ∃ locU locR,
+             (planQueues (s.after p) selU).ops = [Op.pushAll locU true] ∧
+             (planQueues (s'.after (planPr s' pr .final orc' [])) selR).ops = [Op.pushAll locR true] ∧
+             ∀ d ∈ s.targets pr.dst,
+               SameContent s.g.size p.g locU (planPr s' pr .final orc' []).g locR d)))) := by
+  intro p s' pV
+  obtain ⟨l4, l8, hrU⟩ := rec_planPr_qrun hs hqt pr hnaq orc sel hsc hU
+  obtain ⟨dc, l4e, pushW, hdc, hle, hprep, _, hpe⟩ := close_rec_planPr_enqueue pr hnaq orc sel hsc hU
+  have hcrash := qv_enqueue_crash_state hs hincl hc pr hsc orc hprep (s.targets pr.dst) rej k
+  rw [← hpe] at hcrash
+  obtain ⟨hwf, hincl', hc', hdest⟩ := hcrash
+  obtain ⟨hsrc', hdst', hle'⟩ := close_rec_gates hs hrU hsc hdc hle rej k
+  have haq := close_rec_alreadyQueued hs huq hnaq hrU rej k
+  refine ⟨⟨hwf, hincl', hc', hdest⟩, haq, fun hk => close_rec_rebuilt_self hs hqt huq hnaq hrU rej k hwf hk, ?_⟩
+  cases haq' : alreadyQueued s' pr with
+  | true =>
+    have hpVq : pV = evalQueues s' sel' wgone :=
+      close_rec_planPrV_queued hsrc' hdst' hle' haq' orc' sel' wgone
+    have hk : p.ops.length ≤ k := by
+      have h := haq
+      rw [show alreadyQueued (interrupted s p rej k) pr = true from haq'] at h
+      have h2 := (Bool.and_eq_true _ _).mp h.symm
+      exact of_decide_eq_true h2.1
+    obtain ⟨_, hops, hnil⟩ := qv_evalQueues_spec hwf hincl' hc' sel' wgone
+    cases hv : validated s' with
+    | true =>
+      left
+      refine ⟨rfl, rfl, hk, hpVq, ?_, ?_⟩
+      · rw [hpVq]
+        rcases hops with h | ⟨_, loc, h, hf⟩
+        · exact Or.inl h
+        · exact Or.inr ⟨loc, h, hf⟩
+      · intro hacc selQ
+        exact C02_recovery_enqueue_queued s hs hqt pr hnaq orc sel sc hsc hU rej k
+          (close_rec_hall hs huq hnaq hrU rej k hk hacc) selQ
+    | false =>
+      right; left
+      have hnil' : pV.ops = [] := by rw [hpVq]; exact hnil hv
+      refine ⟨Or.inl ⟨rfl, rfl, hnil'⟩, ?_⟩
+      intro rej' k'
+      have : observableAt s' pV rej' k' = s'.remote := by
+        unfold observableAt
+        rw [hnil', List.take_nil]
+        rfl
+      rw [this]
+      exact ⟨hdest, fun _ _ => rfl⟩
+  | false =>
+    rcases close_rec_planPrV_fresh hsrc' hdst' hle' haq' orc' sel' wgone with
+      ⟨hooo, l4', pushW', hprep', _, hpV⟩ | ⟨hooo, hpV⟩
+    · right; left
+      have hpw := close_rec_prepare_pushW hprep'
+      have hquiet : ∀ op ∈ pushW', op.Quiet := (prepare_quiet s' pr sc dc orc').2 l4' pushW' hprep'
+      subst hpw
+      have hpV' : pV = ⟨l4'.g, pushWOps l4' pr ((s'.targets pr.dst).drop 1), "QueueOutOfOrder", s'.queue⟩ := hpV
+      refine ⟨Or.inr ⟨rfl, hooo, by rw [hpV'], by rw [hpV']; exact hquiet⟩, ?_⟩
+      intro rej' k'
+      have hobs : observableAt s' pV rej' k' =
+          applyOpsAt l4'.g rej' 0 s'.remote ((pushWOps l4' pr ((s'.targets pr.dst).drop 1)).take k') := by
+        rw [hpV']
+        rfl
+      rw [hobs]
+      refine ⟨?_, ?_⟩
+      · intro d
+        rw [close_rec_pushW_only _ _ _ _ _ _ _ _ (by intro _ he; cases he)]
+        exact hdest d
+      · intro x hx
+        exact close_rec_pushW_only _ _ _ _ _ _ _ _ hx
+    · right; right
+      have hgeom : k < p.ops.length ∨
+          (s.targets pr.dst = [pr.dst] ∧ rej (p.ops.length - 1) (.qw pr.id pr.dst pr.src) = true) := by
+        by_cases hk : k < p.ops.length
+        · exact Or.inl hk
+        · right
+          have h := haq
+          rw [show alreadyQueued (interrupted s p rej k) pr = false from haq'] at h
+          have hk' : decide (p.ops.length ≤ k) = true := decide_eq_true (by omega)
+          rw [hk', Bool.true_and] at h
+          exact close_rec_single_target hs hsingle _ h.symm
+      refine ⟨rfl, hooo, hpV, hgeom, ?_⟩
+      intro hk
+      have hreb := close_rec_rebuilt_self hs hqt huq hnaq hrU rej k hwf hk
+      intro hR selU selR hselU hselR
+      exact C02_recovery_enqueue_partial s hs hqt huq pr hnaq orc sel sc hsc hU rej k s' hreb orc' [] hR
+        selU selR hselU hselR
+
+/-- **What case (a) leaves open, exactly.** Under a single refusal, a pull request found queued in the interrupted
+    state either has EVERY `q/w/` ref as the uninterrupted job writes it (then `C02_recovery_enqueue` (a) gives the
+    uninterrupted queue), or exactly one of them - `d0` - was refused and is missing while all the others (at least
+    one) are there. That `validate()` rejects every state of the second kind is what the model shows on each concrete
+    state (`validated … = false` in the examples) and what is not proved in general. -/
+theorem C02_recovery_enqueue_found_queued (s : Sys) (hs : s.WF) (hqt : rec_QTip s.g s.remote) (huq : s.useQueue = true)
+    (pr : PrInfo) (hnaq : alreadyQueued s pr = false) (orc : List Bool) (sel : List Nat) (sc : Commit)
+    (hsc : s.remote.get (.other pr.src) = some sc) (hU : (planPr s pr .final orc sel).outcome = "Queued")
+    (rej : Nat → Ref → Bool) (hsingle : close_rec_Single rej) (k : Nat) :
+    let p := planPr s pr .final orc sel
+    let s' := crashState s p rej k
+    alreadyQueued s' pr = true →
+    (∀ i d n, s'.remote.get (.qw i d n) = (s.after p).remote.get (.qw i d n)) ∨
+    (∃ d0 ∈ s.targets pr.dst, rej (p.ops.length - 1) (.qw pr.id d0 pr.src) = true ∧
+      s'.remote.get (.qw pr.id d0 pr.src) = none ∧
+      ∀ d ∈ s.targets pr.dst, d ≠ d0 → (s'.remote.get (.qw pr.id d pr.src)).isSome = true) := by
+  intro p s' haq'
+  obtain ⟨l4, l8, hrU⟩ := rec_planPr_qrun hs hqt pr hnaq orc sel hsc hU
+  have hfresh := close_rec_fresh huq hnaq
+  have haq := close_rec_alreadyQueued hs huq hnaq hrU rej k
+  rw [show alreadyQueued (interrupted s p rej k) pr = true from haq'] at haq
+  have hk : p.ops.length ≤ k := of_decide_eq_true ((Bool.and_eq_true _ _).mp haq.symm).1
+  by_cases hacc : ∀ d ∈ s.targets pr.dst, rej (p.ops.length - 1) (.qw pr.id d pr.src) = false
+  · exact Or.inl (close_rec_hall hs huq hnaq hrU rej k hk hacc)
+  · right
+    have : ∃ d0 ∈ s.targets pr.dst, rej (p.ops.length - 1) (.qw pr.id d0 pr.src) = true := by
+      apply Classical.byContradiction
+      intro hne
+      apply hacc
+      intro d hd
+      cases hr : rej (p.ops.length - 1) (.qw pr.id d pr.src) with
+      | false => rfl
+      | true => exact absurd ⟨d, hd, hr⟩ hne
+    obtain ⟨d0, hd0, hr0⟩ := this
+    refine ⟨d0, hd0, hr0, ?_, ?_⟩
+    · show (observableAt s p rej k).get _ = none
+      rw [close_rec_qw_exact hs hrU hfresh rej k hd0, if_neg (by rw [hr0]; simp)]
+    · intro d hd hne
+      have hrd : rej (p.ops.length - 1) (.qw pr.id d pr.src) = false := by
+        cases hr : rej (p.ops.length - 1) (.qw pr.id d pr.src) with
+        | false => rfl
+        | true =>
+          obtain ⟨_, he⟩ := hsingle _ _ _ _ hr hr0
+          simp only [Ref.qw.injEq, true_and, and_true] at he
+          exact absurd he hne
+      show ((observableAt s p rej k).get _).isSome = true
+      rw [close_rec_qw_exact hs hrU hfresh rej k hd, if_pos ⟨hk, hrd⟩]
+      obtain ⟨n, hn⟩ := close_rec_l8_qw hrU hd
+      rw [hn]; rfl
+
+/-- non-vacuity of `C02_recovery_enqueue_found_queued`: both alternatives on `qvS` (nothing refused: the four queue
+    refs as in the uninterrupted run; `q/w/1/5.1/…` refused: it is missing, `q/w/1/4.3/…` is there, and `validate()`
+    rejects the state) -/
+example :
+    let p := planPr qvS qvPr .final [] []
+    let a := crashState qvS p (fun _ _ => false) 4
+    let b := crashState qvS p close_rec_rejQW 4
+    alreadyQueued a qvPr = true ∧ alreadyQueued b qvPr = true ∧
+    a.remote.get (.qw 1 (.dev 5 (some 1)) "feature/x") = (qvS.after p).remote.get (.qw 1 (.dev 5 (some 1)) "feature/x") ∧
+    close_rec_rejQW (p.ops.length - 1) (.qw 1 (.dev 5 (some 1)) "feature/x") = true ∧
+    b.remote.get (.qw 1 (.dev 5 (some 1)) "feature/x") = none ∧
+    (b.remote.get (.qw 1 (.dev 4 (some 3)) "feature/x")).isSome = true ∧ validated b = false := by decide
+
+/-- non-vacuity of `C02_recovery_enqueue`: `qvS` and pull request 1 meet every hypothesis, and every disjunct is
+    reached. (a) nothing refused, all four operations: found queued, validated, the evaluation delivered again merges
+    the queue in one atomic push. (b) `q/w/1/5.1/feature/x` refused in the final push: found queued (q/w/1/4.3/… is
+    there), `validate()` fails, IncoherentQueues, no operation. (b) the job died after creating q/4.3 and before
+    creating q/5.1, NOTHING refused: not found queued, `validate()` of the clone fails (MasterQueueMissing for 5.1),
+    QueueOutOfOrder. (c) the job died after creating both queue branches (on the destination tips 1 and 2): not found
+    queued, the guard passes, the evaluation delivered again answers Queued. -/
+example :
+    let s := qvS
+    let pr := qvPr
+    let p := planPr s pr .final [] []
+    (s.WF ∧ s.Incl ∧ CascadeOK s ∧ rec_QTip s.g s.remote ∧ s.useQueue = true ∧ alreadyQueued s pr = false ∧
+      s.remote.get (.other pr.src) = some 3 ∧ p.outcome = "Queued" ∧ p.ops.length = 4 ∧
+      close_rec_Single (fun _ _ => false) ∧ close_rec_Single close_rec_rejQW) ∧
+    (let s' := crashState s p (fun _ _ => false) 4
+     let pV := planPrV s' pr .final [] [1] []
+     alreadyQueued s' pr = true ∧ validated s' = true ∧ pV.outcome = "Merged" ∧ pV.ops.map Op.atomic = [true]) ∧
+    (let s' := crashState s p close_rec_rejQW 4
+     let pV := planPrV s' pr .final [] [1] []
+     alreadyQueued s' pr = true ∧ validated s' = false ∧ pV.outcome = "IncoherentQueues" ∧ pV.ops = []) ∧
+    (let s' := crashState s p (fun _ _ => false) 2
+     let pV := planPrV s' pr .final [] [1] []
+     alreadyQueued s' pr = false ∧ close_rec_outOfOrder s' pr [] = true ∧ pV.outcome = "QueueOutOfOrder" ∧
+       (s'.remote.get (.q (.dev 4 (some 3))), s'.remote.get (.q (.dev 5 (some 1)))) = (some 1, none)) ∧
+    (let s' := crashState s p (fun _ _ => false) 3
+     let pV := planPrV s' pr .final [] [1] []
+     alreadyQueued s' pr = false ∧ close_rec_outOfOrder s' pr [] = false ∧ pV.outcome = "Queued" ∧
+       (s'.remote.get (.q (.dev 4 (some 3))), s'.remote.get (.q (.dev 5 (some 1)))) = (some 1, some 2)) :=
+  ⟨⟨close_rec_qvS_WF, close_rec_incl_check (by decide), close_rec_cascade_check (by decide), rec_qtip_check (by decide),
+     by decide, by decide, by decide, by decide, by decide, close_rec_single_none, close_rec_single_at _ _⟩,
+   by decide, by decide, by decide, by decide⟩
+
+/-- the remaining geometry of case (b)/(c), final push executed and the pull request NOT found queued: a pull request
+    with one target whose only `q/w/` ref is the refused ref. Here q/5.1 has moved to the queue commit 4 with no
+    queue-integration branch on it: `validate()` fails (MasterQueueNotInSync), QueueOutOfOrder - case (b). -/
+example :
+    let s := qvS
+    let pr := close_rec_pr1
+    let p := planPr s pr .final [] []
+    let s' := crashState s p close_rec_rejQW1 2
+    let pV := planPrV s' pr .final [] [] []
+    alreadyQueued s pr = false ∧ p.outcome = "Queued" ∧ p.ops.length = 2 ∧ s.targets pr.dst = [pr.dst] ∧
+    close_rec_Single close_rec_rejQW1 ∧
+    alreadyQueued s' pr = false ∧ close_rec_outOfOrder s' pr [] = true ∧ pV.outcome = "QueueOutOfOrder" ∧
+    errorsOf s' = some [.MasterQueueNotInSync] ∧
+    s'.remote.get (.q (.dev 5 (some 1))) = some 4 ∧ s'.remote.get (.dest (.dev 5 (some 1))) = some 2 :=
+  ⟨by decide, by decide, by decide, by decide, close_rec_single_at _ _, by decide, by decide, by decide, by decide,
+   by decide, by decide⟩
+
+/-- case (c) with the final push EXECUTED (second alternative of its geometry) does occur: on `RecDemo.q3` (pull
+    request 1 = `feature/y` queued on 4.3 and 5.1) a pull request 3 whose source `feature/z` is the commit of
+    `feature/y` targets development/5.1 only. Its source is already in q/5.1: the queue commit is q/5.1 itself, the
+    plan is the final push alone, whose `q/5.1` update is a no-op; the server refuses `q/w/3/5.1/feature/z`. Nothing
+    has changed, the pull request is not found queued, the queues validate, the evaluation delivered again queues it. -/
+example :
+    let s : Sys := (step RecDemo.q3 (.extPoint "feature/z" 3)).1
+    let pr : PrInfo := ⟨3, "feature/z", RecDemo.d51, false⟩
+    let p := planPr s pr .final [] []
+    let rej : Nat → Ref → Bool := fun i r => i == 0 && r == .qw 3 RecDemo.d51 "feature/z"
+    let s' := crashState s p rej 1
+    alreadyQueued s pr = false ∧ p.outcome = "Queued" ∧ p.ops.length = 1 ∧ s.targets pr.dst = [pr.dst] ∧
+    s'.remote.get (.q RecDemo.d51) = s.remote.get (.q RecDemo.d51) ∧ (allQRefs s'.remote).length = (allQRefs s.remote).length ∧
+    alreadyQueued s' pr = false ∧ validated s' = true ∧
+    close_rec_outOfOrder s' pr [] = false ∧ (planPrV s' pr .final [] [] []).outcome = "Queued" := by decide
+
+/-- **A crash BEFORE the final push does not always lead back to a plain re-enqueue.** `add_to_queue` creates and
+    pushes the missing queue branches one by one (`get_queue_branch`). When the job dies between two of these pushes -
+    no ref refused, nothing of the final push attempted - the lower version has its queue branch and the higher one
+    has not: `_vertical_validation` reports `MasterQueueMissing` ("check all subsequent versions have a master
+    queue"), and the fresh Bert-E answers QueueOutOfOrder instead of queueing: the documented queue reset is needed
+    although no pull request is queued and every existing queue branch sits on its destination tip (the state is
+    `rec_Rebuilt`, and after the reset `C02_recovery_enqueue_first_partial` applies). Case (b) of
+    `C02_recovery_enqueue`, not case (c); with one more operation executed it is case (c). -/
+theorem C02_recovery_enqueue_half_created_witness :
+    let p := planPr qvS qvPr .final [] []
+    let s' := crashState qvS p (fun _ _ => false) 2
+    p.ops.length = 4 ∧ alreadyQueued s' qvPr = false ∧
+    (s'.remote.get (.q (.dev 4 (some 3))), s'.remote.get (.q (.dev 5 (some 1)))) = (some 1, none) ∧
+    (s'.remote.get (.dest (.dev 4 (some 3))), s'.remote.get (.dest (.dev 5 (some 1)))) = (some 1, some 2) ∧
+    allQRefs s'.remote = [.q (.dev 4 (some 3))] ∧
+    errorsOf s' = some [.MasterQueueMissing] ∧
+    (planPrV s' qvPr .final [] [] []).outcome = "QueueOutOfOrder" ∧
+    (planPrV (crashState qvS p (fun _ _ => false) 3) qvPr .final [] [] []).outcome = "Queued" := by decide
 
 end BertE.C02
